@@ -1,5 +1,6 @@
 import IV.Lemmas.Dr
 import IV.Lemmas.DrOrder
+import IV.Lemmas.DrDecl
 /-!
 C02 — a component fires exactly when its requirements are met; arguments bind in order.
 
@@ -268,6 +269,72 @@ theorem parser_ignores_keywords (r : RawDecl) (coe : Bool) (hk : r.kind = .parse
     derive { r with kwRequires := kw, kwOptional := o } = derive r := by
   unfold derive
   simp [hk]
+
+/-! ### declarations as they may really be written: lists inside lists, `requires=` as a tuple -/
+
+/-- on every well-formed declaration the wider reading is the one above: nothing is rejected, nothing re-ordered -/
+theorem derive2_wellformed (r : RawDecl) : derive2 r.raw = some (derive r) := by
+  have hmap : ∀ l : List Item, allSome ((l.map Item.raw).map RItem.toItem) = some l := by
+    intro l
+    rw [List.map_map, allSome_map_some (RItem.toItem ∘ Item.raw) id l (fun it _ => toItem_raw it)]
+    simp
+  unfold derive2 derive RawDecl.raw
+  cases hk : r.kind <;> simp only [Kind.isParser, Bool.not_true, Bool.not_false, Bool.false_and, Bool.and_false,
+    Bool.false_eq_true, if_false, if_true, List.isEmpty_map, List.append_nil]
+  all_goals
+    by_cases hp : r.positional.isEmpty = true
+    · simp only [hp, if_true, List.append_nil, List.map_nil, ← List.map_append, hmap, Option.map_some]
+      try (rw [List.isEmpty_iff.mp hp]; simp [hmap])
+    · simp only [hp, if_false, ← List.map_append, hmap, Option.map_some, Bool.false_eq_true]
+
+/-- `requires=` given as a tuple is rejected whenever the keyword is looked at (no positional argument, not a parser) -/
+theorem derive2_tuple_keyword (r : RawDecl2) (hp : r.positional = []) (hk : r.kind.isParser = false)
+    (ht : r.kwRequiresIsTuple = true) : derive2 r = none := by
+  unfold derive2; simp [hp, hk, ht]
+
+/-- … and is not looked at when there are positional arguments: the result is that of the list form -/
+theorem derive2_tuple_ignored (r : RawDecl2) (hp : r.positional ≠ []) :
+    derive2 { r with kwRequiresIsTuple := true } = derive2 { r with kwRequiresIsTuple := false } := by
+  unfold derive2
+  have : r.positional.isEmpty = false := by cases h : r.positional with
+    | nil => exact absurd h hp
+    | cons _ _ => rfl
+  simp [this]
+
+/-- a list inside an at-least-one list, at a place the constructor looks at, is rejected -/
+theorem derive2_nested_rejected (r : RawDecl2) (it : RItem) (hn : it.toItem = none)
+    (hm : it ∈ r.clsRequires ∨ (it ∈ r.positional)) : derive2 r = none := by
+  have key : ∀ kw : List RItem,
+      allSome ((r.clsRequires ++ (if r.positional.isEmpty then kw else r.positional)).map RItem.toItem) = none := by
+    intro kw
+    apply allSome_none
+    rw [← hn]
+    apply List.mem_map_of_mem
+    rcases hm with hm | hm
+    · exact List.mem_append_left _ hm
+    · apply List.mem_append_right
+      have : r.positional.isEmpty = false := by cases h : r.positional with
+        | nil => rw [h] at hm; simp at hm
+        | cons _ _ => rfl
+      simp [this, hm]
+  by_cases hc : (r.positional.isEmpty && (!r.kind.isParser && r.kwRequiresIsTuple)) = true
+  · simp only [derive2, hc, if_true]
+  · simp only [derive2, if_neg hc, key, Option.map_none]
+    split <;> rfl
+
+/-- a list inside the `optional=` list is rejected, except by a parser (which never looks at the keyword) -/
+theorem derive2_optional_list_rejected (r : RawDecl2) (hk : r.kind.isParser = false) (ho : r.kwOptionalHasList = true) :
+    derive2 r = none := by
+  unfold derive2; simp only [hk, ho]; split <;> rfl
+
+example : derive2 ⟨.rule, [], [], [.one 1, .group [.comp 2, .comp 3]], [], false, .single 5, false⟩
+    = some ⟨.rule, [.one 1, .group [2, 3]], [5]⟩ := by decide
+example : derive2 ⟨.plugin, [], [], [], [.one 1], true, .absent, false⟩ = none := by decide
+example : derive2 ⟨.plugin, [], [], [.one 1], [], false, .many [2], true⟩ = none := by decide
+example : derive2 ⟨.parser false, [], [], [.one 1], [], false, .many [2], true⟩ = some ⟨.parser false, [.one 1], []⟩ := by decide
+example : derive2 ⟨.parser true, [], [], [.one 0], [.one 1], true, .absent, false⟩ = some ⟨.parser true, [.one 0], []⟩ := by decide
+example : derive2 ⟨.plugin, [], [], [.group [.comp 2, .nested [3, 4]]], [], false, .absent, false⟩ = none := by decide
+example : (RItem.group [.comp 2, .nested [3, 4]]).toItem = none := by decide
 
 example : (derive ⟨.rule, [.one 9], [8], [.one 1, .group [2, 3]], [.one 7], .single 5⟩).deps = [9, 1, 2, 3, 8, 5] := by decide
 example : (derive ⟨.plugin, [], [], [], [.one 7, .one 6], .many [5, 4]⟩).deps = [7, 6, 5, 4] := by decide
